@@ -1709,35 +1709,52 @@ pub fn vh_macmc(a: &Args) {
 }
 
 /// `vh nbwalk depth=<d> regions=EU868,US915`: the nb state machine under FREE-FORM event sequences.  From a fresh
-/// ABP session: every sequence of `depth` events that starts with a request (send answered Done / Txing by the
-/// radio, or join) followed by any events of the alphabet {send, send_txing, join, txdone, timeout, timeout_fault
+/// ABP session: a canonical prefix into each state of the machine (Idle; transmitting; waiting for / receiving in
+/// RX1 and RX2, for a data uplink and for a join request) followed by every sequence of depth-2 (quick 2, thorough
+/// 3) events of the alphabet {send, send_txing, join, txdone, timeout, timeout_fault
 /// (the radio refuses the RX request / the cancel), rx_valid (authentic fresh confirmed downlink with a
-/// DevStatusReq), rx_junk (same frame, MIC broken), rx_oversize (100-byte data frame), noise0 (stray radio event),
-/// noise2 (radio failure event)}, plus every pair of events from Idle.  MacTrace.tla defines the response and the
+/// DevStatusReq), rx_junk (same frame, MIC broken), rx_oversize (100-byte data frame), rx_ja (authentic JoinAccept
+/// under the root key of `join`), noise0 (stray radio event), noise2 (radio failure event)}, plus every pair of
+/// events from Idle.  MacTrace.tla defines the response and the
 /// state after every (state, event) pair; nothing here knows what is expected.
 pub fn vh_nbwalk(a: &Args) {
     let depth = a.get_usize("depth", if a.thorough { 5 } else { 4 });
     let regions: Vec<String> = a.get("regions").unwrap_or(if a.thorough { "EU868,US915" } else { "EU868" }).split(',').map(|s| s.to_string()).collect();
-    let alpha = ["send", "send_txing", "join", "txdone", "timeout", "timeout_fault", "rx_valid", "rx_junk", "rx_oversize", "noise0", "noise2"];
-    let mut seqs: Vec<Vec<usize>> = vec![];
-    for x in 0..alpha.len() {
-        for y in 0..alpha.len() {
-            seqs.push(vec![x, y]);
-        }
+    let alpha = ["send", "send_txing", "join", "txdone", "timeout", "timeout_fault", "rx_valid", "rx_junk", "rx_oversize", "noise0", "noise2", "rx_ja"];
+    // canonical prefixes that bring the state machine into each of its states (Idle; transmitting; waiting for
+    // RX1; receiving in RX1; waiting for RX2; receiving in RX2 - for a data uplink and for a join request), then
+    // every sequence of `depth - 2` (at least 2) events of the alphabet
+    let ix = |n: &str| alpha.iter().position(|x| *x == n).unwrap();
+    let (send, txing, join, to) = (ix("send"), ix("send_txing"), ix("join"), ix("timeout"));
+    let mut prefixes: Vec<Vec<usize>> = vec![vec![]];
+    for req in [send, join] {
+        prefixes.push(vec![req]);
+        prefixes.push(vec![req, to]);
+        prefixes.push(vec![req, to, to]);
+        prefixes.push(vec![req, to, to, to]);
     }
-    let mut cur: Vec<Vec<usize>> = vec![vec![0], vec![1], vec![2]];
-    for _ in 1..depth {
+    prefixes.push(vec![txing]);
+    let tail = depth.saturating_sub(2).max(2);
+    let mut tails: Vec<Vec<usize>> = vec![vec![]];
+    for _ in 0..tail {
         let mut next = vec![];
-        for s in &cur {
+        for s in &tails {
             for x in 0..alpha.len() {
                 let mut t = s.clone();
                 t.push(x);
                 next.push(t);
             }
         }
-        cur = next;
+        tails = next;
     }
-    seqs.extend(cur);
+    let mut seqs: Vec<Vec<usize>> = vec![];
+    for p in &prefixes {
+        for t in &tails {
+            let mut v = p.clone();
+            v.extend(t.iter().copied());
+            seqs.push(v);
+        }
+    }
     let mut out = crate::cli::Shards::create(&a.out, "mac", a.shards);
     let key = [1u8; 16];
     let addr = [1u8, 2, 3, 4];
@@ -1772,6 +1789,10 @@ pub fn vh_nbwalk(a: &Args) {
                         }
                         mk("rx", "done", Some(Frame { bytes, snr: 3, intent: format!("walk:{name}") }))
                     }
+                    "rx_ja" => {
+                        let bytes = Net::join_accept(&[7u8; 16], [idx as u8, 0, 0x30], [1, 2, 3], addr, 0x00, 1, -1, &[0; 15]);
+                        mk("rx", "done", Some(Frame { bytes, snr: 3, intent: "walk:rx_ja".into() }))
+                    }
                     "rx_oversize" => {
                         let (nwk, app, ad) = view.keys.unwrap_or((key, key, addr));
                         let net = Net { nwk, app, addr: ad, sent: vec![] };
@@ -1799,13 +1820,13 @@ pub fn vh_awalk(a: &Args) {
     let regions: Vec<String> = a.get("regions").unwrap_or(if a.thorough { "EU868,US915" } else { "EU868" }).split(',').map(|s| s.to_string()).collect();
     let outcomes = ["none", "valid", "junk", "oversize"];
     #[derive(Clone)]
-    struct P { join: bool, rx1: usize, rx2: usize, fault: i32 }
+    struct P { join: bool, rx1: usize, rx2: usize, fault: i32, rxc: bool }
     let mut first: Vec<P> = vec![];
     for join in [false, true] {
         for rx1 in 0..4 {
             for rx2 in 0..4 {
                 for fault in -1..10 {
-                    first.push(P { join, rx1, rx2, fault });
+                    first.push(P { join, rx1, rx2, fault, rxc: false });
                 }
             }
         }
@@ -1815,14 +1836,18 @@ pub fn vh_awalk(a: &Args) {
         for rx1 in 0..4 {
             for rx2 in 0..4 {
                 for fault in [-1, 3, 6] {
-                    second.push(P { join: false, rx1, rx2, fault });
+                    second.push(P { join: false, rx1, rx2, fault, rxc: false });
                 }
             }
         }
     } else {
         for rx1 in 0..4 {
-            second.push(P { join: false, rx1, rx2: 0, fault: -1 });
+            second.push(P { join: false, rx1, rx2: 0, fault: -1, rxc: false });
         }
+    }
+    // Class C only: listening outside a procedure (rxc_listen) with one frame of each kind
+    for rx1 in 1..4 {
+        second.push(P { join: false, rx1, rx2: 0, fault: -1, rxc: true });
     }
     let mut out = crate::cli::Shards::create(&a.out, "mac", a.shards);
     let key = [1u8; 16];
@@ -1833,6 +1858,9 @@ pub fn vh_awalk(a: &Args) {
         for classc in [false, true] {
             for p1 in &first {
                 for p2 in &second {
+                    if p2.rxc && !classc {
+                        continue;
+                    }
                     let ops = vec![
                         Op::Reset {
                             region: region.clone(), front: "async".into(), classc, board: 0, bias_sb: 0, bias_retries: 1,
@@ -1886,6 +1914,9 @@ pub fn vh_awalk(a: &Args) {
                         let mut l2 = if plan.c2.is_empty() { view.fcnt_down } else { last };
                         if let Some(f) = frame(p.rx2, &mut l2, &mut jn) {
                             plan.rx2.push(f);
+                        }
+                        if p.rxc {
+                            return Some(Op::Rxc { frames: plan.rx1.clone() });
                         }
                         if p.join {
                             Some(Op::JoinOtaa { appkey, deveui: [1, 2, 3, 4, 5, 6, 7, 8], appeui: [8, 7, 6, 5, 4, 3, 2, 1], draws: vec![], plan })
